@@ -6,6 +6,8 @@
 //          {"op":"setapp","org":..,"name":..,"ver":..}    QCoreApplication::setOrganizationName / ApplicationName / Version
 //          {"op":"info","h":k} {"op":"uuid","h":k,"name":..} {"op":"sys","h":k}     construct an attribute handler
 //          {"op":"msg","h":k}                              ask handler k for its attributes
+//          {"op":"race"}                                   two more instances of the application (forked) build an AppUuidAttr
+//                                                          at the same moment; reports both UUIDs and what the settings hold
 //          {"op":"drop","h":k}                             destroy handler k
 //          {"op":"restart","wipe":[[org,name],...],"hard":bool}
 //                 end of this process (hard: _exit without running any destructor), settings files of the listed
@@ -27,6 +29,7 @@
 #include <QJsonArray>
 #include <QJsonDocument>
 #include <QJsonObject>
+#include <QSettings>
 #include <QSysInfo>
 
 #include <cstdarg>
@@ -152,6 +155,49 @@ int runAttrsProcess(const QJsonArray &ops, int from, int argc, char **argv)
             w["machine_unique_id"] = QString::fromLatin1(QSysInfo::machineUniqueId());
             w["boot_unique_id"] = QString::fromLatin1(QSysInfo::bootUniqueId());
             o["want"] = w;
+        } else if (k == "race") {
+            // two more instances of the application (forked copies of this process) construct their AppUuidAttr at the
+            // same moment: both are held at a barrier, released together, and report the UUID they show
+            int go[2];
+            int res[2][2];
+            pid_t kids[2];
+            if (pipe(go) != 0)
+                _exit(3);
+            std::cout.flush();
+            for (int j = 0; j < 2; ++j) {
+                if (pipe(res[j]) != 0)
+                    _exit(3);
+                kids[j] = fork();
+                if (kids[j] == 0) {
+                    close(go[1]);
+                    char c;
+                    (void)!read(go[0], &c, 1);            // returns when the parent closes its end
+                    QByteArray u;
+                    {
+                        AppUuidAttr a;
+                        u = a.attributes(lmsg).value(QStringLiteral("app_uuid")).toString().toLatin1();
+                    }
+                    (void)!write(res[j][1], u.constData(), size_t(u.size()));
+                    _exit(0);
+                }
+                close(res[j][1]);
+            }
+            close(go[0]);
+            usleep(30000);                                // both children are blocked in read() by now
+            close(go[1]);
+            QJsonArray uuids;
+            for (int j = 0; j < 2; ++j) {
+                char buf[128];
+                const ssize_t n = read(res[j][0], buf, sizeof buf);
+                uuids.append(QString::fromLatin1(buf, n > 0 ? int(n) : 0));
+                close(res[j][0]);
+                int st = 0;
+                waitpid(kids[j], &st, 0);
+            }
+            o["uuids"] = uuids;
+            QSettings settings(QSettings::UserScope, QCoreApplication::organizationName(), QCoreApplication::applicationName());
+            settings.sync();
+            o["stored"] = settings.value(QStringLiteral("app_uuid")).toString();
         } else if (k == "msg") {
             o["attrs"] = attrsOf(hs.at(h)->attributes(lmsg));
         } else if (k == "drop") {
